@@ -16,25 +16,34 @@ Fixpoint has_map (ops : list op) : bool :=
   | [] => false
   | ONewline :: r => has_map r
   | OMap _ _ _ _ _ :: _ => true
+  | ONull _ :: _ => false       (* the first mapping of a builder chunk has an original position *)
   end.
 
 Lemma has_map_split : forall ops, has_map ops = true ->
   exists k gc si ol oc nm rest, ops = repeat ONewline k ++ OMap gc si ol oc nm :: rest.
 Proof.
-  induction ops as [|[|gc si ol oc nm] r IH]; intro H; cbn [has_map] in H.
+  induction ops as [|[|gc si ol oc nm|gc] r IH]; intro H; cbn [has_map] in H.
   - discriminate.
   - destruct (IH H) as (k & gc & si & ol & oc & nm & rest & ->).
     exists (S k), gc, si, ol, oc, nm, rest. reflexivity.
   - exists 0%nat, gc, si, ol, oc, nm, r. reflexivity.
+  - discriminate.
 Qed.
 
-Lemma has_map_app a b : has_map (a ++ b) = has_map a || has_map b.
-Proof. induction a as [|[|] a IH]; cbn [app has_map orb]; [reflexivity|exact IH|reflexivity]. Qed.
+Lemma has_map_app_l a b : has_map a = true -> has_map (a ++ b) = true.
+Proof. induction a as [|[| |] a IH]; cbn [app has_map]; intro H; [discriminate|exact (IH H)|reflexivity|discriminate]. Qed.
+
+Lemma has_map_newlines k X : has_map (repeat ONewline k ++ X) = has_map X.
+Proof. induction k as [|k IH]; [reflexivity|]. cbn [repeat app has_map]. exact IH. Qed.
+
+Lemma breaks_ops_nil : forall k has, breaks_ops k [] has = repeat ONewline k.
+Proof. induction k as [|k IH]; intro has; [reflexivity|]. cbn [breaks_ops repeat]. destruct has; cbn [app]; rewrite IH; reflexivity. Qed.
 
 (* a chunk with a mapping is not ShouldIgnore *)
 Lemma all_semis_has_map : forall ops lb p, has_map ops = true -> all_semis (ebytes ops lb p) = false.
 Proof.
-  induction ops as [|[|gc si ol oc nm] r IH]; intros lb p H; cbn [has_map] in H.
+  induction ops as [|[|gc si ol oc nm|gc] r IH]; intros lb p H; cbn [has_map] in H.
+  4:{ discriminate. }
   - discriminate.
   - rewrite ebytes_newline. cbn [all_semis]. rewrite (IH _ _ H). apply andb_false_r.
   - destruct (ebytes_map_gen gc si ol oc nm r lb p) as (lb' & _ & ->).
@@ -48,14 +57,15 @@ Qed.
 
 Lemma sorted_ops_app : forall a b c, sorted_ops (a ++ b) c <-> sorted_ops a c /\ sorted_ops b (end_col a c).
 Proof.
-  induction a as [|[|gc si ol oc nm] a IH]; intros b c; cbn [app sorted_ops end_col].
+  induction a as [|[|gc si ol oc nm|gc] a IH]; intros b c; cbn [app sorted_ops end_col].
   - tauto.
   - apply IH.
+  - rewrite IH. tauto.
   - rewrite IH. tauto.
 Qed.
 
 Lemma end_col_app : forall a b c, end_col (a ++ b) c = end_col b (end_col a c).
-Proof. induction a as [|[|] a IH]; intros b c; cbn [app end_col]; [reflexivity| |]; apply IH. Qed.
+Proof. induction a as [|[| |] a IH]; intros b c; cbn [app end_col]; [reflexivity| | |]; apply IH. Qed.
 
 Lemma end_col_newlines k c : end_col (repeat ONewline k) c = match k with O => c | S _ => 0 end.
 Proof. revert c. induction k as [|k IH]; intro c; [reflexivity|]. cbn [repeat end_col]. rewrite IH. destruct k; reflexivity. Qed.
@@ -68,12 +78,15 @@ Lemma rebase_sorted_end (dc ds dn : Z) : forall ops c0 c' (fl : bool),
   sorted_ops (rebase dc ds dn fl ops) c' /\
   end_col (rebase dc ds dn fl ops) c' <= end_col ops c0 + (if fl && (nlines ops =? 0) then dc else 0).
 Proof.
-  induction ops as [|[|gc si ol oc nm] r IH]; intros c0 c' fl Hs Hc; cbn [rebase sorted_ops end_col nlines] in *.
+  induction ops as [|[|gc si ol oc nm|gc] r IH]; intros c0 c' fl Hs Hc; cbn [rebase sorted_ops end_col nlines] in *.
   - rewrite andb_true_r. split; [exact I|exact Hc].
   - destruct (IH 0 0 false Hs ltac:(lia)) as (A & B). split; [exact A|].
     pose proof (nlines_nonneg r).
     assert (Hf : fl && (1 + nlines r =? 0) = false) by (destruct fl; cbn [andb]; lia).
     rewrite Hf. cbn [andb] in B. exact B.
+  - destruct Hs as [H1 H2].
+    destruct (IH gc (if fl then gc + dc else gc) fl H2 ltac:(destruct fl; lia)) as (A & B).
+    split; [split; [destruct fl; lia|exact A]|exact B].
   - destruct Hs as [H1 H2].
     destruct (IH gc (if fl then gc + dc else gc) fl H2 ltac:(destruct fl; lia)) as (A & B).
     split; [split; [destruct fl; lia|exact A]|exact B].
@@ -141,7 +154,9 @@ Lemma sp_event_first text cover loc name delta :
 Proof.
   intro Hloc. unfold sp_event. cbn [w_ploc sw0].
   replace (loc =? -1) with false by lia. cbn [andb snd].
-  rewrite !has_map_app. cbn [has_map]. rewrite !orb_true_r. reflexivity.
+  assert (Hcov : cover_op cover (w_last sw0) = []) by (destruct cover; reflexivity).
+  rewrite Hcov, breaks_ops_nil, has_map_newlines.
+  match goal with |- has_map ((if ?c then _ else _) ++ _) = _ => destruct c end; reflexivity.
 Qed.
 
 Lemma spec_has_map text cover evs fin :
@@ -151,8 +166,8 @@ Proof.
   intros Hall Hne. destruct evs as [|[[loc name] delta] evs]; [congruence|].
   inversion Hall as [|e l Hb _]; subst. cbn [fst] in Hb. pose proof (boundary_nonneg _ _ Hb) as Hloc.
   unfold builder_spec_ops, builder_spec. cbn [fst snd].
-  rewrite has_map_app. cbn [sp_run snd]. rewrite has_map_app.
-  rewrite (sp_event_first text cover loc name delta Hloc). reflexivity.
+  apply has_map_app_l. cbn [sp_run snd]. apply has_map_app_l.
+  apply (sp_event_first text cover loc name delta Hloc).
 Qed.
 
 Lemma built_is_spec sf : src_ok sf ->
